@@ -248,3 +248,61 @@ func init() {
 		})
 	}
 }
+
+// sync.Map: an executor map in a side table keyed by the address of the
+// sync.Map; every operation is atomic (no access recording: the type is
+// documented safe for concurrent use), the contents are shared state all the same.
+func (ex *Exec) syncMapOf(p *Value) *Map {
+	key := fmt.Sprintf("syncmap:%p", p)
+	if m, ok := ex.pathState[key].(*Map); ok {
+		return m
+	}
+	m := newMap()
+	ex.pathState[key] = m
+	return m
+}
+
+func init() {
+	reg("(*sync.Map).Load", func(ex *Exec, fr *frame, fn *ssa.Function, args []Value) Value {
+		e := ex.mapFind(ex.syncMapOf(args[0].(*Value)), args[1])
+		if e == nil {
+			return Tuple{Iface{}, tFalse}
+		}
+		return Tuple{e.v, tTrue}
+	})
+	reg("(*sync.Map).Store", func(ex *Exec, fr *frame, fn *ssa.Function, args []Value) Value {
+		ex.mapSet(ex.syncMapOf(args[0].(*Value)), args[1], args[2])
+		return nil
+	})
+	reg("(*sync.Map).LoadOrStore", func(ex *Exec, fr *frame, fn *ssa.Function, args []Value) Value {
+		m := ex.syncMapOf(args[0].(*Value))
+		if e := ex.mapFind(m, args[1]); e != nil {
+			return Tuple{e.v, tTrue}
+		}
+		ex.mapSet(m, args[1], args[2])
+		return Tuple{args[2], tFalse}
+	})
+	reg("(*sync.Map).LoadAndDelete", func(ex *Exec, fr *frame, fn *ssa.Function, args []Value) Value {
+		m := ex.syncMapOf(args[0].(*Value))
+		e := ex.mapFind(m, args[1])
+		if e == nil {
+			return Tuple{Iface{}, tFalse}
+		}
+		v := e.v
+		ex.mapDelete(m, args[1])
+		return Tuple{v, tTrue}
+	})
+	reg("(*sync.Map).Delete", func(ex *Exec, fr *frame, fn *ssa.Function, args []Value) Value {
+		ex.mapDelete(ex.syncMapOf(args[0].(*Value)), args[1])
+		return nil
+	})
+	reg("(*sync.Map).Range", func(ex *Exec, fr *frame, fn *ssa.Function, args []Value) Value {
+		for _, e := range ex.syncMapOf(args[0].(*Value)).live() {
+			r := ex.callValue(fr, args[1], []Value{e.k, e.v}, nil).(*Term)
+			if !ex.decide(r) {
+				break
+			}
+		}
+		return nil
+	})
+}
